@@ -197,6 +197,10 @@ func (b Builder) getDefer(kind DoAction) *aDefer {
 		deferState.panicBlk = panicBlk
 
 		b.SetBlockEx(rethrowBlk, AtEnd, false) // rethrow
+		// A panic raised by the first-registered (last replayed) deferred call
+		// arrives here directly, without passing the unlink at the end of the
+		// replay chain: unlink the frame before unwinding into the caller.
+		b.Call(b.Pkg.rtFunc("SetThreadDefer"), link)
 		b.Call(b.Pkg.rtFunc("Rethrow"), link)
 		b.Jump(self.recov)
 
@@ -233,6 +237,7 @@ func (b Builder) getDeferInCurrentBlock() *aDefer {
 	deferState.panicBlk = panicBlk
 
 	b.SetBlockEx(rethrowBlk, AtEnd, false)
+	b.Call(b.Pkg.rtFunc("SetThreadDefer"), link)
 	b.Call(b.Pkg.rtFunc("Rethrow"), link)
 	b.Jump(self.recov)
 
